@@ -1,10 +1,10 @@
 //go:build verif
 
-// Command harness runs the real mangle implementation (module replaced by
+// Package hlib runs the real mangle implementation (module replaced by
 // /repo's current working tree) on cases read from stdin, one JSON value per
 // line, and writes one JSON value per line. Each property registers a runner
 // in its own file (cNN.go) from an init function.
-package main
+package hlib
 
 import (
 	"bufio"
@@ -20,7 +20,7 @@ type Runner func(in json.RawMessage) (any, error)
 
 var runners = map[string]Runner{}
 
-func register(name string, r Runner) { runners[name] = r }
+func Register(name string, r Runner) { runners[name] = r }
 
 type outcome struct {
 	Out   any    `json:"out,omitempty"`
@@ -41,7 +41,7 @@ func runOne(r Runner, in json.RawMessage) (o outcome) {
 	return outcome{Out: out}
 }
 
-func main() {
+func Main() {
 	if len(os.Args) < 2 {
 		names := []string{}
 		for n := range runners {
